@@ -164,7 +164,7 @@ def parse_props(pid):
     return out
 
 
-def build_property(ctx, timeout=1500, extra_targets=()):
+def build_property(ctx, timeout=1500, extra_targets=(), gen_deps=None):
     """steps 1-2 of a check: regenerate gen/*.v, build the cone of Props/<pid>.vo, collect
     Print Assumptions.  Sets ctx.build / ctx.props / ctx.broken."""
     regen(ctx)
@@ -195,6 +195,9 @@ def build_property(ctx, timeout=1500, extra_targets=()):
             name = f"{f['file']}:{f['line']}" + (f" ({f['lemma']})" if f['lemma'] else '')
             ctx.broken.append(name)
             ctx.note(f"proof obligation broken: {name}: {f['error'][:300]}")
+    if gen_deps is not None:
+        ctx.gen['errors'] = [e for e in ctx.gen['errors'] if e['out'] in gen_deps]
+        ctx.gen['stamps'] = [s for s in ctx.gen['stamps'] if s.get('out') in gen_deps]
     for e in ctx.gen['errors']:
         ctx.broken.append(f"translator:{e['target']}")
     return not ctx.broken
